@@ -171,6 +171,20 @@ def generate(repo, g):
     g.fp(pu, 'cut_value_at_position')
     iter_arguments_reads(helpers, g)
     sort_key(helpers, g)
+    # last: on an unknown shape the constants of the unchanged code are written (so that the Lean
+    # side still builds against the model of the unchanged code and the correspondence /
+    # failing-input search can run) and the tie is reported
+    try:
+        error_node_start(Src(repo, 'jedi/inference/imports.py'), g)
+    except TieBroken:
+        import os
+        from translator.extract import GEN_DIR, write_if_changed
+        have = {l.split()[1] for l in g.lines if l.startswith('def ')}
+        for name, typ, value in ES_EXPECTED:
+            if name not in have:
+                g.define(name, typ, value, 'FALLBACK (source shape not recognised): value of the unchanged code')
+        write_if_changed(os.path.join(GEN_DIR, g.pid + '.lean'), g.text())
+        raise
 
 
 # ---------------------------------------------------------------------------------------------
@@ -405,3 +419,86 @@ def sort_key(helpers, g):
              'jedi/api/helpers.py:sorted_definitions key tuple: (attribute of the definition, wrapped in str(), '
              'int literal after `or`, str literal after `or`)')
     g.fp(helpers, 'sorted_definitions')
+
+
+# ---------------------------------------------------------------------------------------------
+# the statement-start scan of imports.follow_error_node_imports_if_possible
+
+ES_EXPECTED = [
+    ('esInit', 'Nat', '0'),
+    ('esStrict', 'Bool', 'true'),
+    ('esNameEnd', 'Bool', 'false'),
+    ('esBreakFirst', 'Bool', 'true'),
+    ('esOffset', 'Nat', '1'),
+    ('esSeparator', 'String', '";"'),
+    ('esUse', 'List String', lean_list(['nodes = error_node.children[start_index:]',
+                                        'first_name = nodes[0].get_first_leaf().value'])),
+]
+
+
+def error_node_start(imports, g):
+    """```
+    error_node = name.search_ancestor('error_node')
+    if error_node is not None:
+        start_index = <init>
+        for index, n in enumerate(error_node.children):
+            if n.start_pos <> or >=> name.<start_pos or end_pos>:
+                break
+            if n == '<sep>':
+                start_index = index + <offset>
+        nodes = error_node.children[start_index:]
+        first_name = nodes[0].get_first_leaf().value
+    ```
+    the two `if`s of the loop body in either order"""
+    where = 'jedi/inference/imports.py:follow_error_node_imports_if_possible'
+    fn = imports.find('follow_error_node_imports_if_possible')
+    if [a.arg for a in fn.args.args] != ['context', 'name']:
+        raise TieBroken(where + ': parameters', u(fn.args))
+    body = [s for s in fn.body if not (isinstance(s, ast.Expr) and isinstance(s.value, ast.Constant))]
+    if len(body) != 3 or u(body[0]) != "error_node = name.search_ancestor('error_node')" \
+            or not isinstance(body[1], ast.If) or u(body[1].test) != 'error_node is not None' or body[1].orelse \
+            or u(body[2]) != 'return None':
+        raise TieBroken(where + ': not `error_node = ...; if error_node is not None: ...; return None`',
+                        u(fn)[:300])
+    inner = body[1].body
+    if len(inner) < 4:
+        raise TieBroken(where + ': statements under `if error_node is not None`', u(body[1])[:300])
+    s0, loop, s2, s3 = inner[:4]
+    ok = isinstance(s0, ast.Assign) and u(s0.targets[0]) == 'start_index' and isinstance(s0.value, ast.Constant) \
+        and isinstance(s0.value.value, int) and not isinstance(s0.value.value, bool) and s0.value.value >= 0
+    if not ok:
+        raise TieBroken(where + ': no `start_index = <int>` in front of the loop', u(s0))
+    ok = isinstance(loop, ast.For) and u(loop.target).strip('()') == 'index, n' and u(loop.iter) == 'enumerate(error_node.children)' \
+        and not loop.orelse and len(loop.body) == 2 and all(isinstance(x, ast.If) and not x.orelse and len(x.body) == 1
+                                                            for x in loop.body)
+    if not ok:
+        raise TieBroken(where + ': the statement-start scan is not `for index, n in enumerate(error_node.children):` '
+                                'with two plain `if`s', u(loop)[:300])
+    brk = [i for i, x in enumerate(loop.body) if isinstance(x.body[0], ast.Break)]
+    if len(brk) != 1:
+        raise TieBroken(where + ': the loop does not have exactly one `if ...: break`', u(loop)[:300])
+    b, a = loop.body[brk[0]], loop.body[1 - brk[0]]
+    t = b.test
+    ok = isinstance(t, ast.Compare) and len(t.ops) == 1 and isinstance(t.ops[0], (ast.Gt, ast.GtE)) \
+        and u(t.left) == 'n.start_pos' and u(t.comparators[0]) in ('name.start_pos', 'name.end_pos')
+    if not ok:
+        raise TieBroken(where + ': break test is not `n.start_pos > / >= name.start_pos / name.end_pos`', u(t))
+    asg = a.body[0]
+    ok = isinstance(a.test, ast.Compare) and len(a.test.ops) == 1 and isinstance(a.test.ops[0], ast.Eq) \
+        and u(a.test.left) == 'n' and isinstance(a.test.comparators[0], ast.Constant) \
+        and isinstance(a.test.comparators[0].value, str) \
+        and isinstance(asg, ast.Assign) and u(asg.targets[0]) == 'start_index' and isinstance(asg.value, ast.BinOp) \
+        and isinstance(asg.value.op, ast.Add) and u(asg.value.left) == 'index' \
+        and isinstance(asg.value.right, ast.Constant) and isinstance(asg.value.right.value, int) \
+        and not isinstance(asg.value.right.value, bool) and asg.value.right.value >= 0
+    if not ok:
+        raise TieBroken(where + ": separator test is not `if n == '<str>': start_index = index + <int>`", u(a))
+    g.define('esInit', 'Nat', str(s0.value.value), where + ' `start_index = N` in front of the loop')
+    g.define('esStrict', 'Bool', lean_bool(isinstance(t.ops[0], ast.Gt)), where + ' break test operator is `>` (not `>=`)')
+    g.define('esNameEnd', 'Bool', lean_bool(u(t.comparators[0]) == 'name.end_pos'),
+             where + ' break test compares with name.end_pos (not name.start_pos)')
+    g.define('esBreakFirst', 'Bool', lean_bool(brk[0] == 0), where + ' the break test stands in front of the separator test')
+    g.define('esOffset', 'Nat', str(asg.value.right.value), where + ' `start_index = index + N`')
+    g.define('esSeparator', 'String', lean_str(a.test.comparators[0].value), where + " `n == '<separator>'`")
+    g.define('esUse', 'List String', lean_list([u(s2), u(s3)]), where + ' the two statements behind the loop')
+    g.fp(imports, 'follow_error_node_imports_if_possible')
